@@ -61,6 +61,7 @@ def run_one(pid, m):
 
 def main():
     args = [a for a in sys.argv[1:] if not a.startswith('--')]
+    smoke = '--smoke' in sys.argv
     files = sorted(glob.glob(os.path.join(HERE, 'mutants', '*.json')))
     jobs = []
     for f in files:
@@ -69,6 +70,10 @@ def main():
             continue
         for m in json.load(open(f)):
             jobs.append((pid, m))
+            if smoke:
+                break
+    if smoke:
+        jobs = [j for j in jobs if j[0] in ('C19', 'C03', 'C02', 'C14', 'C09', 'C04')]
     missed = 0
     with concurrent.futures.ThreadPoolExecutor(max_workers=8) as ex:
         futs = [(pid, m, ex.submit(run_one, pid, m)) for pid, m in jobs]
